@@ -88,7 +88,7 @@ theorem refs_from_changer (r : Repo) (base other : View) (b : Nat)
     (r.mergeBookmarks base other).view.getBookmark b =
       mergeRefTargets r.store (r.view.getBookmark b) (optTarget (base.bookmarks.lookup b))
         (optTarget (other.bookmarks.lookup b)) :=
-  mergeBookmarks_changed' r base other b h
+  mergeBookmarks_changed_any r base other b h
 
 /-- the diff of two name maps lists every name at most once -/
 theorem diff_names_unique (a b : List (Nat × RefTarget)) : ((diffNamed a b).map (·.1)).Nodup :=
